@@ -330,7 +330,222 @@ Proof.
     rewrite Ec. exists g', (dupd l1 "$3" (DI (Z.of_nat t))), hc'. split; [reflexivity|]. split; [exact Hi'|].
     apply Linv_dupd; [unfold Linv; auto| | |]; discriminate. }
   specialize (HL Hbody).
-  admit.
-Admitted.
+  assert (Hes : Forall (fun e : nat * rule => (fst e < n)%nat) (edgesOf h n)).
+  { apply Forall_forall. intros e He. exact (BackpropP.wf_heap_edgesOf h W n e He). }
+  assert (Hi0 : Inv gstart (markDirty h (n :: fst st)) (n :: fst st, snd st)).
+  { unfold Inv, gstart. cbn [fst snd rev]. rewrite !dlookup_dupd. cbn [String.eqb Ascii.eqb Bool.eqb].
+    split; [|split; [exact Ho|reflexivity]]. unfold ids. rewrite map_app. reflexivity. }
+  assert (Hl0 : Linv lstart n) by (unfold Linv, lstart; cbn; auto).
+  destruct (HL (edgesOf h n) 0%nat 0 _ gstart lstart _ Hes Hi0 Hl0) as (g2 & l2 & hc2 & El & Hi2 & Hl2).
+  unfold encEdge in El. rewrite El. clear El HL Hbody Hasg.
+  set (st2 := fold_left (fun s e => dfs f h (fst e) s) (edgesOf h n) (n :: fst st, snd st)) in *.
+  destruct Hi2 as (Hv2 & Ho2 & Hh2). destruct Hl2 as (L1 & L2 & L3).
+  dxs. unfold vlookup, vassign, dhas. rewrite L1, L2, Ho2. dxs. cbn [ptrOuts].
+  eexists. exists hc2. split; [reflexivity|].
+  unfold Inv. cbn [fst snd rev]. rewrite !dlookup_dupd. cbn [String.eqb Ascii.eqb Bool.eqb].
+  split; [exact Hv2|]. split; [|exact Hh2]. unfold ids. rewrite map_app. reflexivity.
+Qed.
+
+(* ------------------------------------------------------------------------------------ *)
+(* (c) the whole function                                                                *)
+(* ------------------------------------------------------------------------------------ *)
+Lemma markDirty_nil : markDirty h [] = h.
+Proof.
+  apply nth_error_ext_eq. intros j. rewrite BackpropP.nth_error_markDirty. cbn [memb existsb].
+  destruct (nth_error h j); reflexivity.
+Qed.
+
+Lemma if_same {X} (b : bool) (x : X) : (if b then x else x) = x.
+Proof. destruct b; reflexivity. Qed.
+
+(* the top-level search: visited and finished contexts coincide, and there are at most root+1 of them *)
+Lemma dfs_top_facts (root : nat) :
+  let st := dfs (S root) h root ([], []) in
+  (forall x, memb x (fst st) = memb x (snd st)) /\ (length (snd st) <= S root)%nat.
+Proof.
+  intros st.
+  assert (Hinv0 : BackpropP.dinv h root ([], [])).
+  { unfold BackpropP.dinv. cbn [fst snd BackpropP.ordered]. split; [intros ? []|]. split; [exact I|].
+    split; [constructor|]. split; intros ? []. }
+  destruct (BackpropP.dfs_spec h W (S root) root ([], []) ltac:(lia) Hinv0) as (J & _ & _ & Jo & _).
+  cbn zeta in *. fold st in J, Jo. destruct J as (J1 & _ & J3 & _ & _).
+  destruct (BackpropP.dfs_new h W (S root) root ([], [])) as (new & En & Hnew).
+  fold st in En. cbn [snd] in En. rewrite app_nil_r in En.
+  split.
+  - intros x. destruct (memb x (snd st)) eqn:E2.
+    + apply BackpropP.memb_in. apply J1. apply BackpropP.memb_in. exact E2.
+    + destruct (memb x (fst st)) eqn:E1; [|reflexivity].
+      apply BackpropP.memb_in in E1.
+      assert (Hn : ~ In x (snd st)) by (intro X; apply BackpropP.memb_in in X; congruence).
+      destruct (Jo x E1 Hn) as [[] _].
+  - apply Nat.le_trans with (length (seq 0 (S root))); [|rewrite seq_length; lia].
+    apply NoDup_incl_length; [exact J3|].
+    intros c Hc. apply in_seq. rewrite En in Hc. destruct (Hnew c Hc) as [Hle _]. lia.
+Qed.
+
+Lemma setSlot_main (g : denv) x n v m m' :
+  dlookup g x = Some (DL m) -> setNthD m n v = Some m' -> setSlot true g [] x n v = Some (dupd g x (DL m'), []).
+Proof.
+  intros Hg Hs. unfold setSlot, vlookup. cbn [dlookup]. rewrite Hg, Hs. unfold vassign. cbn [dhas dlookup].
+  rewrite if_same. reflexivity.
+Qed.
+
+Lemma vassign_main (g : denv) x v : vassign true g [] x v = (dupd g x v, []).
+Proof. unfold vassign. cbn [dhas dlookup]. apply if_same. Qed.
+
+Ltac dl := rewrite ?dlookup_dupd; cbn [String.eqb Ascii.eqb Bool.eqb].
+
+Theorem topo_run (root fuel depth : nat) :
+  (root < length h)%nat -> (root < depth)%nat -> (length h < fuel)%nat ->
+  exists g l,
+    drun fapp heap (hext rd) g_topologicalOrder fuel depth [DI (Z.of_nat root)] h =
+    DRet heap [DL (ids (topoOrder h root))] (markDirty h (topoOrder h root)) g l.
+Proof.
+  intros Hr Hd Hf.
+  unfold drun. cbn [pmain dparams dbind dbody g_topologicalOrder]. dxs.
+  set (g0 := [("root", DI (Z.of_nat root)); ("order", DL []); ("visited", DL [])] : denv).
+  assert (Hi0 : Inv g0 h ([], [])).
+  { unfold Inv, g0. cbn [fst snd rev ids map dlookup String.eqb Ascii.eqb Bool.eqb]. rewrite markDirty_nil. auto. }
+  destruct (visit_closure fuel (S root) depth ltac:(lia) root ([], []) h g0 ltac:(lia) Hr Hi0)
+    as (g1 & hc1 & Ec & Hv1 & Ho1 & Hh1).
+  rewrite Ec. dxs.
+  fold (topoOrder h root) in Ho1.
+  set (st1 := dfs (S root) h root ([], [])) in *.
+  dl. rewrite Ho1. dxs. dl. dxs. dl. dxs.
+  match goal with |- context [dforLoop heap _ ?c ?b ?p _ ?gs _] =>
+    pose proof (rev_loop heap c b p) as HL; set (gstart := gs) in *
+  end.
+  match type of HL with ?P -> _ => assert (Hc : P) end.
+  { intros g i j Hi Hj. cbn [vlookup dlookup]. rewrite Hi, Hj. reflexivity. }
+  specialize (HL Hc).
+  match type of HL with ?P -> _ => assert (Hb : P) end.
+  { intros s g i j m x y m1 m2 Ho Hi Hj Hnx Hny Hs1 Hs2. dxs.
+    rewrite Ho, Hj, didx_nat, Hny. dxs. dl. rewrite Ho, Hi, didx_nat, Hnx. dxs. dl.
+    rewrite Hi, didx_nat.
+    rewrite (setSlot_main _ "order" i y m m1) by (dl; assumption). dxs. dl.
+    rewrite Hj, didx_nat.
+    rewrite (setSlot_main _ "order" j x m1 m2) by (dl; auto).
+    eexists. split; [reflexivity|]. dl. auto. }
+  specialize (HL Hb).
+  match type of HL with ?P -> _ => assert (Hp : P) end.
+  { intros s g i j v Ho Hi Hj. dxs. rewrite Hi. dxs. dl. rewrite Hj. dxs. dl.
+    rewrite if_same. dxs. dl. rewrite if_same.
+    eexists. split; [reflexivity|]. dl. auto. }
+  specialize (HL Hp). clear Hc Hb Hp.
+  destruct (dfs_top_facts root) as (Fm & Fl). fold st1 in Fm, Fl. change (snd st1) with (topoOrder h root) in Fm, Fl.
+  assert (Hlen : length (ids (rev (topoOrder h root))) = length (topoOrder h root)).
+  { unfold ids. rewrite map_length, rev_length. reflexivity. }
+  destruct (HL fuel (ids (rev (topoOrder h root))) [] [] hc1 gstart) as (g2 & El & Ho2).
+  - rewrite Hlen. lia.
+  - unfold gstart. dl. rewrite app_nil_r. exact Ho1.
+  - unfold gstart. dl. reflexivity.
+  - unfold gstart. dl. unfold dlen. cbn [length Z.of_nat Z.add]. reflexivity.
+  - rewrite El. dxs. rewrite Ho2. exists g2, []. f_equal.
+    + cbn [app]. rewrite app_nil_r. unfold ids. rewrite <- map_rev, rev_involutive. reflexivity.
+    + rewrite Hh1. apply markDirty_ext. exact Fm.
+Qed.
+
+(* a root that is not a node of the heap: the first context access fails, as does the oracle entry *)
+Lemma topo_run_out (root fuel depth : nat) :
+  (length h <= root)%nat -> (0 < depth)%nat ->
+  drun fapp heap (hext rd) g_topologicalOrder fuel depth [DI (Z.of_nat root)] h = DPanic heap.
+Proof.
+  intros Hr Hd. destruct depth as [|d]; [lia|].
+  unfold drun. cbn [pmain dparams dbind dbody g_topologicalOrder]. dxs.
+  rewrite callLD_S.
+  cbn [dlookupFn plocals g_topologicalOrder String.eqb Ascii.eqb Bool.eqb dbind dparams dbody]. dxs.
+  rewrite hext_tracked_out by exact Hr. reflexivity.
+Qed.
 
 End Topo.
+
+(* ------------------------------------------------------------------------------------ *)
+(* main theorems                                                                         *)
+(* ------------------------------------------------------------------------------------ *)
+Section Main.
+Context {A : Type} {SA : Scalar A}.
+Variable fapp : string -> list A -> option A.
+Variable rd : bred.
+Notation heap := (@heap A).
+Notation dval := (@dval A).
+
+(* (a) the closure: visit(n), run with captured lists holding the model's search state (visited, order) — Go appends,
+   the model conses — on the heap h with the visited contexts marked, ends in the state of Backprop.dfs *)
+Theorem heap_visit (h : heap) (fuel f d n : nat) (st : list nat * list nat) (g : @denv A) :
+  BackpropP.wf_heap h -> (n < f)%nat -> (f <= d)%nat -> (n < length h)%nat ->
+  dlookup g "visited" = Some (DL (map (fun i => DI (Z.of_nat i)) (rev (fst st)))) ->
+  dlookup g "order" = Some (DL (map (fun i => DI (Z.of_nat i)) (rev (snd st)))) ->
+  exists g',
+    callLD fapp heap (hext rd) (plocals g_topologicalOrder) fuel d "visit" [DI (Z.of_nat n)] (markDirty h (fst st)) g =
+    CRet heap [] (markDirty h (fst (dfs f h n st))) g' /\
+    dlookup g' "visited" = Some (DL (map (fun i => DI (Z.of_nat i)) (rev (fst (dfs f h n st))))) /\
+    dlookup g' "order" = Some (DL (map (fun i => DI (Z.of_nat i)) (rev (snd (dfs f h n st))))).
+Proof.
+  intros W Hn Hd Hl Hv Ho.
+  destruct (visit_closure fapp rd h W fuel f d Hd n st (markDirty h (fst st)) g Hn Hl) as (g' & hc' & Ec & Hv' & Ho' & Hh').
+  { unfold Inv. auto. }
+  subst hc'. exists g'. auto.
+Qed.
+
+(* (c) the function: the order and the heap of the model (depth > root suffices) *)
+Theorem heap_topologicalOrder_strong (h : heap) (root fuel depth : nat) :
+  BackpropP.wf_heap h -> (root < length h)%nat -> (root < depth)%nat -> (length h < fuel)%nat ->
+  exists g l,
+    drun fapp heap (hext rd) g_topologicalOrder fuel depth [DI (Z.of_nat root)] h =
+    DRet heap [DL (map (fun i => DI (Z.of_nat i)) (topoOrder h root))] (markDirty h (topoOrder h root)) g l.
+Proof. intros W. exact (topo_run fapp rd h W root fuel depth). Qed.
+
+Theorem heap_topologicalOrder (h : heap) (root fuel depth : nat) :
+  BackpropP.wf_heap h -> (root < length h)%nat -> (depth > root + 1)%nat -> (fuel > length h)%nat ->
+  exists g l,
+    drun fapp heap (hext rd) g_topologicalOrder fuel depth [DI (Z.of_nat root)] h =
+    DRet heap [DL (map (fun i => DI (Z.of_nat i)) (topoOrder h root))] (markDirty h (topoOrder h root)) g l.
+Proof. intros W Hr Hd Hf. apply heap_topologicalOrder_strong; [exact W|exact Hr|lia|lia]. Qed.
+
+(* the program IS the oracle entry "topologicalOrder" of Model/HeapExt.v: same results, same final heap, and it
+   panics exactly when the entry is undefined (root not a node of the heap) *)
+Theorem heap_topologicalOrder_oracle (h : heap) (root fuel depth : nat) :
+  BackpropP.wf_heap h -> (depth > root + 1)%nat -> (fuel > length h)%nat ->
+  match hext rd "topologicalOrder" [DI (Z.of_nat root)] h with
+  | Some (rs, h') => exists g l,
+      drun fapp heap (hext rd) g_topologicalOrder fuel depth [DI (Z.of_nat root)] h = DRet heap rs h' g l
+  | None => drun fapp heap (hext rd) g_topologicalOrder fuel depth [DI (Z.of_nat root)] h = DPanic heap
+  end.
+Proof.
+  intros W Hd Hf. destruct (Nat.lt_ge_cases root (length h)) as [Hr|Hr].
+  - rewrite (hext_topo rd h root Hr). apply heap_topologicalOrder; assumption.
+  - rewrite (hext_topo_out rd h root Hr). apply topo_run_out; [exact Hr|lia].
+Qed.
+
+End Main.
+
+Print Assumptions rev_loop.
+Print Assumptions heap_visit.
+Print Assumptions heap_topologicalOrder_strong.
+Print Assumptions heap_topologicalOrder.
+Print Assumptions heap_topologicalOrder_oracle.
+
+(* the heap of TrackEx (Proofs/TrackP.v): y = m.Add(c) (id 5) reaches its tracked Broadcast operand 3, then m (2),
+   then the leaf x (0); the run returns [5; 3; 2; 0] and leaves exactly these contexts spent *)
+From Qeep Require Proofs.TrackP.
+Module TopoEx.
+Import TrackP.TrackEx.
+#[local] Existing Instance Z_scalar.
+
+Example topo_example :
+  match drun (fun _ _ => None) (@heap Z) (hext RedSum) g_topologicalOrder 10 10 [DI 5] e5 with
+  | DRet _ [DL l] h' _ _ =>
+      l = [DI 5; DI 3; DI 2; DI 0] /\ h' = markDirty e5 [5; 3; 2; 0]%nat /\
+      map (@ndirty Z) h' = [true; false; true; true; false; true; false; false]
+  | _ => False
+  end.
+Proof. vm_compute. repeat split; reflexivity. Qed.
+
+Example topo_example_oracle :
+  match drun (fun _ _ => None) (@heap Z) (hext RedSum) g_topologicalOrder 10 10 [DI 5] e5,
+        hext RedSum "topologicalOrder" [DI 5] e5 with
+  | DRet _ rs h' _ _, Some (rs', h'') => rs = rs' /\ h' = h''
+  | _, _ => False
+  end.
+Proof. vm_compute. split; reflexivity. Qed.
+End TopoEx.
